@@ -1346,6 +1346,7 @@ class Interp:
             if isinstance(x, Qty): return Qty(x.phys, x.unit)
             if isinstance(x, DF): return DF(x.vec, x.unit)
             if isinstance(x, (bool, PyNum, str)): return x
+            if isinstance(x, ExplU): x = self.resolve(x)
             if isinstance(x, Expl): return self.call_method(x, "__copy__", [], {})
             raise Unsupported(f"copy({type(x).__name__})")
         if name == "re.search":
